@@ -68,7 +68,21 @@ fn run(case: &C19Case) -> Check {
         }
         let sv = crate::oracle::linalg::svd(&h);
         let cov = crate::oracle::linalg::inv_gram_from_svd(&sv);
-        sv.smin() > 0.0 && (0..pn).all(|k| cov.at(m + k, m + k).sqrt() <= 0.03 * fam0.alpha_true[k].abs())
+        // and the weighted basis matrix must be of clearly full rank with respect to the library's
+        // ABSOLUTE singular-value threshold (machine epsilon): with data in large units the honest
+        // weights 1/sigma_i are ~1e-16, every singular value of W∘Phi counts as zero (C01) and the
+        // estimates are the truncated ones — outside what C19 speaks about (silence seeds 7010, 7013)
+        let above_threshold = {
+            let mut a = crate::oracle::Mat::zeros(n, m);
+            for j in 0..m {
+                let col = fam0.spec.eval_col::<f64>(j, &fam0.x, &fam0.alpha_true);
+                for i in 0..n {
+                    a.set(i, j, col[i] * fam0.w.as_ref().map(|w| w[i]).unwrap_or(1.0));
+                }
+            }
+            crate::oracle::linalg::svd(&a).smin() > 1e4 * f64::EPSILON
+        };
+        above_threshold && sv.smin() > 0.0 && (0..pn).all(|k| cov.at(m + k, m + k).sqrt() <= 0.03 * fam0.alpha_true[k].abs())
     };
     for r in 0..if premise_ok { reps } else { 0 } {
         let mut fam = fam0.clone();
